@@ -170,6 +170,21 @@ def generate(streams: core.Streams, tier: str) -> dict:
             {"type": "field_name_mapping", "mapping": {"m.y": "m.z"}}]
         fmt_force = "st"
         kinds.add("mapping_chain_from_two_source_fields")
+    if pipeline is not None and gen.chance(w, 0.15):
+        # a Hashes field split up by the hashes_fields transformation: one rule with hashes of allowed
+        # algorithms, one with an algorithm that is not allowed (the error lists the allowed ones)
+        rules_only = [d for d in docs if "detection" in d and "title" in d and d["title"] != "Rbadchain"]
+        good, bad = gen.pick(w, rules_only), gen.pick(w, rules_only)
+        bad["detection"]["hsel"] = {"Hashes|contains": ["IMPHASH=0123456789ABCDEF0123456789ABCDEF"]}
+        if good is not bad:
+            good["detection"]["hsel"] = {"Hashes|contains": ["MD5=0123456789abcdef0123456789abcdef",
+                                                             "SHA1=0123456789abcdef0123456789abcdef01234567"]}
+        for d in {id(good): good, id(bad): bad}.values():
+            first = next(k for k in d["detection"] if k not in ("condition", "hsel"))
+            d["detection"]["condition"] = f"{first} or hsel"
+        pipeline["transformations"].append({"type": "hashes_fields", "field_prefix": "File",
+                                            "valid_hash_algos": ["MD5", "SHA1", "SHA256", "SHA512"]})
+        kinds.add("hashes_field_with_unknown_algorithm")
     n_filters = sum(1 for d in docs if "filter" in d)
     if not forced and n_filters >= 2 and gen.chance(f, 0.6):
         forced = ["zzzzzzzzzz"] * 12  # every filter application draws the same prefix first
